@@ -1517,6 +1517,12 @@ class Interp:
         if isinstance(v, VOpaque):
             a = ("disc", v.tag, 0, max([val for val, _ in targets] + [1]))
             return self.switch(st, VInt(64, False, lin=Lin.atom(a)), targets, otherwise)
+        if isinstance(v, VApp):
+            # a flag / small integer decoded by a leaf (`if u8_to_bool(bit) { .. }`): one case per leaf path
+            out = []
+            for s2, val in self.app_cases(st, v):
+                out += self.switch(s2, val, targets, otherwise)
+            return out
         raise Unanalysable("switch on %r" % (v,))
 
     def exec_term(self, st, body, frame, bb, t, results):
@@ -1569,12 +1575,19 @@ class Interp:
             # closure self: &closure or closure
             if ct["k"] == "ref":
                 ct = self.f.types[ct["ty"]]
-            ups = ct.get("upvars", [])
-            for u in ups:
+            def scalar_capture(u, depth=0):
                 ut = self.f.types[u]
                 if ut["k"] == "ref":
                     ut = self.f.types[ut["ty"]]
-                if ut["k"] not in ("int", "bool", "float", "char"):
+                if ut["k"] in ("int", "bool", "float", "char"):
+                    return True
+                # a captured helper closure that itself captures only scalars (`.map(rescale)`)
+                if ut["k"] == "closure" and depth < 2:
+                    return all(scalar_capture(x, depth + 1) for x in ut.get("upvars", []))
+                return False
+            ups = ct.get("upvars", [])
+            for u in ups:
+                if not scalar_capture(u):
                     return False
         else:
             params = body["locals"][1:1 + body["arg_count"]]
@@ -1795,8 +1808,16 @@ class Interp:
             raise Unanalysable("closure args %r" % (argtuple,))
         if not self.inline_leaves and self.is_leaf(b):
             ups = []
+
+            def flat(u):
+                v = self.read_ref(st, u) if isinstance(u, VRef) else u
+                if isinstance(v, VClosure):
+                    for x in v.upvars:
+                        flat(x)
+                else:
+                    ups.append(v)
             for u in cvv.upvars:
-                ups.append(self.read_ref(st, u) if isinstance(u, VRef) else u)
+                flat(u)
             items = [self.norm(st, a) for a in items]
             self.leaf_calls.setdefault(b["def"], []).append((tuple(items) + tuple(ups), st))
             return [(st, self.leaf_app(st, b, tuple(items) + tuple(ups)))]
@@ -1927,16 +1948,24 @@ class Interp:
         if is_clo:
             selft = self.f.types[b["locals"][1]]
             ct = self.f.types[selft["ty"]] if selft["k"] == "ref" else selft
-            ups = []
-            for ut in ct.get("upvars", []):
+            counter = [n]
+
+            def build(ut):
                 utt = self.f.types[ut]
-                if utt["k"] == "ref":
-                    v = self.sym_scalar(st, utt["ty"], "arg%d" % n, argsets[n] if n < len(argsets) else None, atoms)
-                    c = sub.new_cell(st, v)
-                    ups.append(VRef(c, ()))
+                inner_ix = utt["ty"] if utt["k"] == "ref" else ut
+                inner = self.f.types[inner_ix]
+                if inner["k"] == "closure":
+                    v = VClosure(inner["def"], [build(x) for x in inner.get("upvars", [])])
                 else:
-                    ups.append(self.sym_scalar(st, ut, "arg%d" % n, argsets[n] if n < len(argsets) else None, atoms))
-                n += 1
+                    k = counter[0]
+                    v = self.sym_scalar(st, inner_ix, "arg%d" % k, argsets[k] if k < len(argsets) else None, atoms)
+                    counter[0] += 1
+                if utt["k"] == "ref":
+                    c = sub.new_cell(st, v)
+                    return VRef(c, ())
+                return v
+            ups = [build(ut) for ut in ct.get("upvars", [])]
+            n = counter[0]
             clo = VClosure(defn, ups)
             if selft["k"] == "ref":
                 c = sub.new_cell(st, clo)
